@@ -56,7 +56,7 @@ INPLACE_OPS = (
     "phase_transpose", "phase_sector", "phase_global", "phase_sync",
     "drop_misaligned", "add", "sub", "mul", "div", "scale",
 )
-# inherited from the block base class: read the raw blocks (known defect F10 for lazy fermionic arrays)
+# defined on the block base class, i.e. on raw blocks (defect F10 for lazy fermionic arrays until /repo b46eb69)
 BLOCKBASE_OPS = ("sum", "max", "min", "abs", "sqrt", "clip", "isfinite", "item", "float", "complex", "int", "bool")
 DECOMP_OPS = ("qr", "svd", "eigh", "svd_truncated")
 INEXACT_OPS = DECOMP_OPS + ("solve", "norm", "sqrt")
@@ -779,7 +779,9 @@ class Gen:
         mode = None
         if not is_f(x) and rng.random() < 0.6:
             mode = str(rng.choice(["auto", "insert", "concat"]))
-        min_g = 2 if mode == "concat" else 1
+        # concat mode with single-axis groups was defect F6 (repaired in /repo by 0a5997b): generated at a reduced
+        # rate; features "mode" and "has_singlet_group" identify such steps should the defect come back
+        min_g = 2 if (mode == "concat" and rng.random() < 0.6) else 1
         if nd < min_g:
             return None
         axes = self.shuffled(range(nd))
@@ -973,6 +975,8 @@ class Gen:
             if pre:
                 return pre + [[name, i, self._maybe_inplace(name, {"b": len(self.vals)})]]
         if not c:
+            if name == "div" and any((np.asarray(v) == 0).any() for v in x.blocks.values()):
+                return None
             # derive a partner: scaled copy (and for add/mul possibly with a block dropped)
             if name in ("add", "mul") and nblocks(x) > 1 and rng.random() < 0.5:
                 pre = [["drop_block", i, {"k": int(rng.integers(0, 8))}]]
